@@ -431,7 +431,7 @@ MANIFEST = {
     "functions, multi-array functions, interp/clip/isclose/pad/isin/searchsorted with their optional arguments, wrapped ndarray methods) is executed for EVERY assignment of spellings {m,cm,km}/{s,ms}/{'',%}/"
     "{rad,deg} to the unit-carrying arguments (up to 27 per entry) and, for ufuncs, 0-d/1-d/2-d shapes. Each result must carry the implied unit and equal NumPy applied to the base-unit magnitudes — which "
     "makes it independent of the spelling —, bare results must be bare, inputs must be bit-identical afterwards. Per entry: an incompatible unit in a unit-sharing slot and a dimensional argument in a "
-    "dimensionless/angle slot must raise DimensionalityError, an offset-unit argument of a multiplicative operation OffsetUnitCalculusError. Products under where= masks (uniform, per-axis and ragged selections; ragged only for dimensionless input). Bare tolerances of isclose/allclose are passed as plain numbers spelled like `a` (they are documented to be read in the units of `a`) for every spelling of a and b. A refused call (incompatible unit, dimensional argument, offset unit — and every entry called with an offset-unit first argument) must leave its inputs bit-identical. 12 explicitly in-place operations must change exactly their target. "
+    "dimensionless/angle slot must raise DimensionalityError, an offset-unit argument of a multiplicative operation OffsetUnitCalculusError. np.power / float_power with an ARRAY exponent on a dimensionless base. Products under where= masks (uniform, per-axis and ragged selections; ragged only for dimensionless input). Bare tolerances of isclose/allclose are passed as plain numbers spelled like `a` (they are documented to be read in the units of `a`) for every spelling of a and b. A refused call (incompatible unit, dimensional argument, offset unit — and every entry called with an offset-unit first argument) must leave its inputs bit-identical. 12 explicitly in-place operations must change exactly their target. "
     "thorough repeats the table under force_ndarray and force_ndarray_like. The evidence lists handled names not covered by the table.",
     "note": "Trusted: NumPy, the role table (refdata/numpy_roles.py). Rounding-like operations are compared with NumPy on the magnitudes as given (not covariant by nature). Random arrays, ranks above 2, masked "
     "arrays and duck arrays other than ndarray are outside.",
